@@ -10,11 +10,14 @@ for d in "$@"; do
   [ -z "$W" ] && { W=/tmp/seedconf/$id; RUNCWD=1; mkdir -p /tmp/seedconf; }
   [ -e "$W" ] && { echo "$id: $W exists, skipping"; continue; }
   git -C /repo worktree add -q --detach "$W" HEAD || continue
+  # the agents' demo.sh copies its test file from <worktree>.out: recreate that directory from the stored seed when it is gone
+  MADEOUT=""; [ -z "$RUNCWD" ] && [ ! -d "$W.out" ] && { mkdir -p "$W.out"; cp "$d"/* "$W.out"/; MADEOUT=1; }
   if [ -n "$RUNCWD" ]; then ( cd "$W" && sh "$d/demo.sh" ) > /tmp/seedconfirm-$id.clean.log 2>&1; rc_clean=$?; else bash "$d/demo.sh" > /tmp/seedconfirm-$id.clean.log 2>&1; rc_clean=$?; fi
   ( cd "$W" && git apply "$d/patch.diff" ) || { echo "$id: patch does not apply"; git -C /repo worktree remove --force "$W"; continue; }
   ( cd "$W" && go build ./... ) > /tmp/seedconfirm-$id.build.log 2>&1; rc_build=$?
   if [ -n "$RUNCWD" ]; then ( cd "$W" && sh "$d/demo.sh" ) > /tmp/seedconfirm-$id.seed.log 2>&1; rc_seed=$?; else bash "$d/demo.sh" > /tmp/seedconfirm-$id.seed.log 2>&1; rc_seed=$?; fi
   git -C /repo worktree remove --force "$W"
   echo "seed=$id demo_without_patch_exit=$rc_clean build_with_patch_exit=$rc_build demo_with_patch_exit=$rc_seed confirmed=$([ $rc_clean -eq 0 ] && [ $rc_build -eq 0 ] && [ $rc_seed -ne 0 ] && echo yes || echo NO)" | tee "$d/confirm.txt"
+  [ -n "$MADEOUT" ] && rm -rf "$W.out"
   rm -f /tmp/seedconfirm-$id.*.log
 done
